@@ -147,6 +147,17 @@ Section Server.
     { apply inv_reject_with; auto; repeat constructor. }
     destruct (Z.eqb (verdict_code ck r) 0) eqn:E.
     - set (aft := match ck_after ck with Some _ => [EvPlugin true] | None => [] end).
+      set (sid := if Nat.eqb (ck_setid ck) 2 then [EvSetID] else []).
+      assert (Q : Forall (fun e => is_setup e = true) (pre_of ck r ++ sid) /\
+                  count is_recv (pre_of ck r ++ sid) <= 1 /\
+                  filter is_auth_reply (pre_of ck r ++ sid) = []).
+      { subst sid. destruct (Nat.eqb (ck_setid ck) 2).
+        - repeat split.
+          + apply Forall_app. split; [exact P1 | repeat constructor].
+          + rewrite count_app. cbn. lia.
+          + rewrite filter_app, P3. reflexivity.
+        - rewrite app_nil_r. auto. }
+      destruct Q as (Q1 & Q2 & Q3).
       assert (A1 : Forall (fun e => is_setup e = true) ([EvAuthReply 0] ++ aft) /\
                    filter is_recv ([EvAuthReply 0] ++ aft) = [] /\
                    filter is_auth_reply ([EvAuthReply 0] ++ aft) = [EvAuthReply 0]).
@@ -160,12 +171,14 @@ Section Server.
           by (apply Forall_app; split; [exact A1 | repeat constructor]).
         assert (M2 : filter is_recv mid = []) by (unfold mid; rewrite filter_app, A2; reflexivity).
         assert (M3 : filter is_auth_reply mid = [EvAuthReply 0]) by (unfold mid; rewrite filter_app, A3; reflexivity).
-        eapply inv_acc with (pre := trace s ++ pre_of ck r ++ mid) (post := []);
+        eapply inv_acc with (pre := trace s ++ (pre_of ck r ++ sid) ++ mid)
+                            (post := if Nat.eqb (ck_setid ck) 0 then [] else [EvDisplace]);
           cbn [ph trace accepted indexed]; auto.
         * right. eauto.
         * unfold mid. rewrite <- !app_assoc. reflexivity.
         * apply setup_ok_build; auto. unfold count. rewrite M3. cbn. lia.
-        * rewrite !filter_app, T3, P3, M3. reflexivity.
+        * rewrite !filter_app, T3, P3, M3. subst sid. destruct (Nat.eqb (ck_setid ck) 2); reflexivity.
+        * destruct (Nat.eqb (ck_setid ck) 0); repeat constructor.
         * split; [eauto | reflexivity].
     - apply inv_reject_with; auto; repeat constructor.
   Qed.
@@ -196,9 +209,12 @@ Section Server.
       + apply IH.
         inversion Hi as [? _ T1 T2 T3 Ha Hx|? ? ? [Hc|(h & Hh)]|? ? Hc]; subst; try congruence.
         apply inv_prep; cbn [ph trace accepted indexed]; auto.
-        * apply Forall_app. split; [exact T1|]. destruct (ck_before ck); repeat constructor.
-        * rewrite filter_app, T2. destruct (ck_before ck); reflexivity.
-        * rewrite filter_app, T3. destruct (ck_before ck); reflexivity.
+        * apply Forall_app. split; [exact T1|].
+          destruct (ck_before ck); destruct (negb (Nat.eqb (ck_panic ck) 1) && Nat.eqb (ck_setid ck) 1); repeat constructor.
+        * rewrite filter_app, T2.
+          destruct (ck_before ck); destruct (negb (Nat.eqb (ck_panic ck) 1) && Nat.eqb (ck_setid ck) 1); reflexivity.
+        * rewrite filter_app, T3.
+          destruct (ck_before ck); destruct (negb (Nat.eqb (ck_panic ck) 1) && Nat.eqb (ck_setid ck) 1); reflexivity.
     - (* Preparing *)
       destruct (Nat.eqb (ck_panic ck) 1).
       { change (@nil ev) with (@nil ev ++ @nil ev). apply inv_reject_with; auto; constructor. }
@@ -349,6 +365,16 @@ Section Server.
     intros Hx. pose proof (inv_run ck ins) as Hi.
     inversion Hi as [|? ? ? ? ? ? ? ? Hacc Hiff|]; subst; try congruence.
     split; [exact Hacc | apply Hiff; exact Hx].
+  Qed.
+
+  (* the session that held a claimed id is closed only by a connection that was accepted *)
+  Lemma displace_only_accepted ck ins :
+    In EvDisplace (trace (run ck ins)) ->
+    accepted (run ck ins) = true /\ In EvAccept (trace (run ck ins)) /\ In (EvAuthReply 0) (trace (run ck ins)).
+  Proof.
+    intros Hin. destruct (in_split _ _ Hin) as (tr1 & tr2 & Ht).
+    destruct (no_app_before_accept ck ins tr1 EvDisplace tr2 Ht eq_refl) as (A & B & C).
+    repeat split; [exact C | rewrite Ht; apply in_or_app; left; exact B | rewrite Ht; apply in_or_app; left; exact A].
   Qed.
 
   (* a failing hook anywhere in the PostAccept chain: never accepted *)
@@ -578,7 +604,7 @@ Section Server.
      before the checker and a checker that does not panic (those cases never accept, see
      failing_chain_never_accepts); any hook behind the checker. *)
   Lemma pipelined_iff ck s f rest :
-    ck_recvs ck = 1%nat -> ck_before ck = None -> ck_panic ck = 0%nat ->
+    ck_recvs ck = 1%nat -> ck_before ck = None -> ck_panic ck = 0%nat -> ck_setid ck = 0%nat ->
     parse limit s = PFrame f rest ->
     let fin := run ck [Bytes s; Eof] in
     let ok := Z.eqb (verdict_code ck (Some (recv_of_frame f))) 0 && negb (hook_fails (ck_after ck)) in
@@ -586,12 +612,12 @@ Section Server.
     filter hr (trace fin) =
       if ok then flat_map (fun g => filter hr (frame_events false g)) (loop_frames rest) else [].
   Proof.
-    intros Hr Hb Hpn Hpa. cbn zeta.
+    intros Hr Hb Hpn Hsid Hpa. cbn zeta.
     set (i0 := mkSt Preparing [] false false false false []).
     assert (H0 : pump ck init = i0).
     { unfold Auth.pump. cbn [buf init length]. cbn [Auth.pump_fuel]. cbn [ph init].
-      rewrite Hb. cbn [hook_fails]. cbn [Auth.pump_fuel]. cbn [ph buf eof gone accepted indexed trace init app].
-      rewrite Hpn. cbn [Nat.eqb]. rewrite Hr. reflexivity. }
+      rewrite Hb, Hpn, Hsid. cbn [hook_fails Nat.eqb negb andb]. cbn [Auth.pump_fuel]. cbn [ph buf eof gone accepted indexed trace init app].
+      rewrite ?Hpn. cbn [Nat.eqb]. rewrite Hr. reflexivity. }
     set (s0 := mkSt Preparing s false false false false []).
     assert (Hmid : step ck i0 (Bytes s) =
                    pump_fuel ck (S (S (length s))) (Auth.finish_accept ck s0 (Some (recv_of_frame f)) rest)).
@@ -601,7 +627,7 @@ Section Server.
     unfold Auth.run. cbn [fold_left]. rewrite H0, Hmid. clear Hmid.
     pose proof (parse_rest_shorter _ _ _ Hpa) as Hs.
     unfold Auth.finish_accept, reject_with. cbn [gone s0 trace app eof].
-    rewrite Hr, Hpn. cbn [Nat.leb Nat.eqb app].
+    rewrite Hr, Hpn, Hsid. cbn [Nat.leb Nat.eqb app].
     destruct (Z.eqb (verdict_code ck (Some (recv_of_frame f))) 0) eqn:V; cbn [andb].
     - destruct (hook_fails (ck_after ck)) eqn:Haf; cbn [negb].
       + set (sr := mkSt Closed rest false false false false _).
